@@ -113,7 +113,9 @@ func (o FileOptions) New(fd *descriptorpb.FileDescriptorProto, r Resolver) (prot
 		fd.GetEdition() != descriptorpb.Edition_EDITION_UNSTABLE {
 		// Allow cmd/protoc-gen-go/testdata to use any edition for easier
 		// testing of upcoming edition features.
-		if !strings.HasPrefix(fd.GetName(), "cmd/protoc-gen-go/testdata/") {
+		// The exemption only covers editions the runtime has defaults for:
+		// any other value would panic in getFeatureSetFor.
+		if !strings.HasPrefix(fd.GetName(), "cmd/protoc-gen-go/testdata/") || !isKnownEdition(fd.GetEdition()) {
 			return nil, errors.New("use of edition %v not yet supported by the Go Protobuf runtime", fd.GetEdition())
 		}
 	}
